@@ -233,14 +233,18 @@ struct A {
 		if (len != m.size())
 			ctx.fail("length", "sort changed the length");
 		std::vector<El> nm;
+		std::map<json_object *, El> byptr;
+		for (auto &o : m)
+			if (o.p)
+				byptr[o.p] = o;
 		for (size_t i = 0; i < len; i++)
 		{
 			json_object *g = json_object_array_get_idx(arr, i);
 			after.insert(g);
 			El e{g, 0, 0};
-			for (auto &o : m)
-				if (o.p == g && g)
-					e = o;
+			auto it = byptr.find(g);
+			if (g && it != byptr.end())
+				e = it->second;
 			nm.push_back(e);
 		}
 		if (before != after)
@@ -286,6 +290,8 @@ struct A {
 static size_t pick_idx(Choices &c, A &a)
 {
 	size_t len = a.m.size(), cap = a.cap();
+	if (len > 3000)
+		return c.pickn(len + 1); // bounded data volume: no further growth by gaps
 	switch (c.pick({4, 4, 4, 3, 3, 3, 2, 2}))
 	{
 	case 0: return 0;
